@@ -20,6 +20,31 @@ def no_util(b):
     return (p.startswith("async_io::") or p.startswith("<async_io::")) and not p.startswith("async_io::util::")
 
 
+def min_copy_amount(g, cnt):
+    """Is `cnt` = min(len(dest), len(stream_buffer())) and is exactly that many bytes copied, dest[..cnt] <- stream_buffer()[..cnt]
+    (`copy_from_slice`; the explicit spelling of what `<&mut [u8] as Write>::write` does)?"""
+    cnt = ir.peel(cnt)
+    if not (cnt[0] == 'call' and cnt[1].endswith("::min") and len(cnt[2]) == 2):
+        return False
+    lens = [ir.peel(a) for a in cnt[2]]
+    if not all(a[0] == 'call' and a[1].endswith("::len") and a[2] for a in lens):
+        return False
+    if not any(E.subject_class(a[2][0]) == 'stream_buf' for a in lens):
+        return False
+    for n in g.all_nodes():
+        if n.term["k"] == "call" and not n.noise() and (g.callee(n) or "").endswith("copy_from_slice") and len(n.term["args"]) == 2:
+            d, s_ = ir.peel(g.arg(n, 0)), ir.peel(g.arg(n, 1))
+            def upto(x):
+                if x[0] == 'call' and (x[1].endswith("index") or x[1].endswith("index_mut")) and len(x[2]) == 2:
+                    rg = ir.peel(x[2][1])
+                    if rg[0] == 'agg' and rg[2].endswith("RangeTo"):
+                        return ir.peel(dict(rg[3]).get('end'))
+                return None
+            if upto(d) == cnt and upto(s_) == cnt and E.subject_class(s_) == 'stream_buf':
+                return True
+    return False
+
+
 def check_entry(rep, facts, label, entry, counters):
     body = facts.body(entry)
     g = ieg.IEG(facts, body, inline_filter=no_util)
@@ -82,6 +107,8 @@ def check_entry(rep, facts, label, entry, counters):
             for w in src:
                 if len(w[2]) == 2 and E.subject_class(w[2][1]) == 'stream_buf':
                     okp = True
+            if not okp and min_copy_amount(g, a):
+                okp = True
             if okp:
                 rep.ok("R9.2", "%s/consume-what-was-copied" % label, "consume_stream(n) with n = result of copying stream_buffer() into the caller's buffer", n.loc())
             else:
@@ -122,6 +149,8 @@ def check_returns(rep, facts):
                         kinds.add('parse-count')
                     elif any(y[0] == 'call' and y[1].endswith("::write") and len(y[2]) == 2 and E.subject_class(y[2][1]) == 'stream_buf' for y in ir.walk(cnt)):
                         kinds.add('copy-count')
+                    elif min_copy_amount(g, cnt):
+                        kinds.add('copy-count')
                     else:
                         bad.append(ir.show(cnt)[:60])
     if bad or not {'parse-count', 'copy-count', 'zero'} <= kinds:
@@ -152,7 +181,13 @@ def check_returns(rep, facts):
                         uses.append((name, ai))
     scan(b, 3)      # poll_input(self, cx, dest)
     allowed = {(E.STR_PARSE, 2)}
-    extra = [u for u in uses if u not in allowed and not (u[0].endswith("::write") and u[1] == 0)]
+    readonly = ("::len", "::is_empty", "index::index", "index::index_mut", "::index", "::index_mut")     # measuring / sub-slicing; the writes are the calls below
+    extra = [u for u in uses if u not in allowed and not (u[0].endswith("::write") and u[1] == 0) and not (u[1] == 0 and u[0].endswith(readonly))]
+    # an explicit copy into (a part of) the caller's buffer must come from stream_buffer()
+    for n in g.all_nodes():
+        if n.term["k"] == "call" and not n.noise() and (g.callee(n) or "").endswith("copy_from_slice") and len(n.term["args"]) == 2:
+            if E.subject_class(g.arg(n, 1)) != 'stream_buf':
+                extra.append(("copy_from_slice from %s" % ir.show(ir.peel(g.arg(n, 1)))[:40], 0))
     if extra:
         rep.violation("R9.1", "poll_input/dest-flows", "the caller's buffer is also passed to %s" % sorted(set(extra)), b.loc())
     else:
